@@ -53,6 +53,27 @@ CLAIMED = {
    note="Application behaviour and arrival order of same-signature copies are not decided.",
    technique="who-may-write with value provenance, guard edge-dominance, value-shape wiring",
  ),
+ "C09": dict(
+   category="other",
+   text="The whole property (no panic or deadlock for every input and schedule) is beyond static reach; decided are enumerable crash/wedge constructs, each a necessary condition: enum flow from the mirror's handlers into both feedback mappers and from kernel producers into the consuming switches whose default panics; a reviewed per-function budget of explicit panic sites over all production packages (new panic => violation; 12 reviewed sites still reachable from peers/schedules are individual known findings); callee preconditions and sibling response fields; bounded reads; no method call on an unchecked interface map lookup; capacity >= 1 at every make site of channels the kernel sends on outside a select; close-once guard of the HeightCommitted channel; constructor discipline (error accumulation, no nil config, documented-required options validated).",
+   design_ref="DESIGN.md §4 C09",
+   note="Not decided: implicit panics outside these classes, deadlock freedom, slow-consumer liveness, third-party code.",
+   technique="interprocedural enum flow vs switch case analysis, panic census with reviewed budget, guard edge-dominance, channel-capacity provenance, doc-comment/validation agreement",
+ ),
+ "C10": dict(
+   category="other",
+   text="Crash-point behaviour is not decided; decided are the orderings and guards any crash-consistency argument for this code needs: header saved (error checked) before the persisted position moves on the commit path; write-through of every view change to the round store on the same path; nothing unloadable is persisted; start-up reads position and views from the stores and advances to h+1 exactly under a stored finalization; init-chain only when mirror store uninitialised and no pre-genesis finalization; two writers of finalizations.",
+   design_ref="DESIGN.md §4 C10",
+   note="Equivalence of resumed and uninterrupted runs, and durability semantics of user stores, are not decided.",
+   technique="dominance/ordering of store writes on SSA, flag-sensitive all-paths post-dominance, guard edge-dominance, who-may-call",
+ ),
+ "C11": dict(
+   category="other",
+   text="Decides producer-side discipline for monotone versions and growing views: mutate=>mark on every path, mark = version++ plus Clone() of that same view to both consumers, no kernel-owned view escapes un-cloned, MarkSent in each output case, version-gated offer to the state machine, nil-voted snapshot before the round swap and jump reserved for next-round evidence, consumer-side height/round/version guards.",
+   design_ref="DESIGN.md §4 C11",
+   note="Relative speeds and eventual delivery are not decided.",
+   technique="flag-sensitive all-paths post-dominance, value-shape provenance (Clone), select-case dominance, who-may-call / who-may-write",
+ ),
  "C13": dict(
    category="other",
    text="Decides the code-shape conditions the merge laws rest on, for both shipped schemes: verify-before-set at every signature/bit write (and that no other function writes those fields), bounded fixed-width reads of key ids and encoded keys, clone independence field by field, clearing of AllValidSignatures on every rejecting edge, flag tests in the commit-proof finalizer. The algebraic laws themselves (union, idempotence, round trip) quantify over values and are not decided.",
